@@ -52,6 +52,8 @@ func (Spaced) Gap(c GapClass) string {
 type Choices struct {
 	C []int
 	i int
+	// KW: letter case of the keywords (0 = as usual, 1 = upper, 2 = capitalised, 3 = every second letter upper)
+	KW int
 	// Stats
 	NL, Comments, Multibyte int
 }
@@ -63,6 +65,8 @@ var begChoices = []string{"", "", "\n", " ", "# head\n", "\n\n", ";", "\r\n"}
 var endChoices = []string{"", "", "\n", " ", "# tail", ";", "\n\n", " # é"}
 var blkChoices = []string{"", " ", "\n", ";", "\n  ", "; # c\n", ";;", "\r\n"}
 var blkBegChoices = []string{"", " ", "\n", ";", "", "; ", "\n", ";\n", "\n;", "#c\n", ";;", " \n "}
+
+func (l *Choices) KeywordCase() int { return l.KW }
 
 func (l *Choices) next() int {
 	if len(l.C) == 0 {
@@ -111,7 +115,28 @@ func isWordByte(c byte) bool {
 }
 
 // tok emits the gap of class c and then the token; returns the token's offset.
+// keywordCaser is implemented by layouts that also choose the letter case of keywords (they match in any case).
+type keywordCaser interface{ KeywordCase() int }
+
+var caseableKeywords = map[string]bool{"if": true, "elif": true, "else": true, "for": true, "in": true, "break": true, "continue": true, "true": true, "false": true, "nil": true, "null": true}
+
 func (p *printer) tok(c GapClass, text string) int {
+	if kc, ok := p.lay.(keywordCaser); ok && caseableKeywords[text] {
+		switch kc.KeywordCase() {
+		case 1:
+			text = strings.ToUpper(text)
+		case 2:
+			text = strings.ToUpper(text[:1]) + text[1:]
+		case 3:
+			b := []byte(text)
+			for i := range b {
+				if i%2 == 1 {
+					b[i] -= 32
+				}
+			}
+			text = string(b)
+		}
+	}
 	g := p.lay.Gap(c)
 	cur := p.b.String()
 	if g == "" && len(cur) > 0 && len(text) > 0 {
